@@ -54,7 +54,10 @@ TOKENS = ["..", "../", "/..", "./", "//", ".\\", "\\\\", "\\", "\x00",
           "\u00b7\u00b7/"]
 CLIMB_TARGETS = ["secret.txt", "outside/secret.txt", "outside/evil.zip/x.txt", "outside/evil.pyg",
                  "outside/run.sh", "rootX/secret.txt", "root/../secret.txt"]
-BASES = {"zip-exec": "/arc.zip/bin/tool.sh", "zip-pyg": "/arc.zip/bin/run.pyg", "bs-name": "/docs/a.\\b.txt", "bs2-name": "/docs/c\\\\d.txt", "dd-name": "/docs/x..y",
+BASES = {"zip-mbox": "/mixed.zip/inbox", "zip-mbox-msg": "/mixed.zip/inbox|/MBOX-MESSAGE/1",
+         "zip-maildir": "/mixed.zip/Mail", "zip-maildir-msg": "/mixed.zip/Mail|/MAILDIR-MESSAGE/1",
+         "zip-in-zip": "/mixed.zip/inner.zip", "zip-in-zip-member": "/mixed.zip/inner.zip/deep.txt",
+         "zip-script": "/mixed.zip/run.sh", "climbmap": "/climbmap", "zip-exec": "/arc.zip/bin/tool.sh", "zip-pyg": "/arc.zip/bin/run.pyg", "bs-name": "/docs/a.\\b.txt", "bs2-name": "/docs/c\\\\d.txt", "dd-name": "/docs/x..y",
          "file": "/small.txt", "dir": "/docs", "zip": "/arc.zip", "zip-member": "/arc.zip/d/b.txt",
          "mbox": "/mail.mbox", "script": "/script.sh", "pyg": "/hello.pyg", "missing": "/nope",
          "linkzip": "/linkzip.zip/evil", "linkzip-abs": "/linkzip.zip/abs", "maildir": "/md"}
@@ -171,7 +174,9 @@ def gen(seed, index, tier):
             style = rng.choice(["min", "all", "lower", "dots", "mixed"])
         reqs.append({"sel": sel, "proto": p, "layers": layers, "style": style, "shape": shape})
     return {"requests": reqs, "handlers": rng.choice(["default", "full", "full"]),
-            "cwds": rng.sample(["outside", "root", "/", "S"], 2),
+            # (never a directory outside the scratch tree: a defect that creates files relative to the
+            #  working directory must not litter the machine)
+            "cwds": rng.sample(["outside", "root", "rootX", "S"], 2),
             "servertype": rng.choice(["ThreadingTCPServer", "ForkingTCPServer"]),
             "outsideB": rng.choice(["different", "missing", "dir-instead"]),
             "sched_seed": rng.randrange(1 << 30)}
@@ -199,6 +204,35 @@ def _build_root(S):
             zi.external_attr = (0o120777 << 16)
             z.writestr(zi, target)
     simfs.real_utime(zp, (sched.EPOCH - 5000, sched.EPOCH - 5000))
+    # an archive whose members look like things that only real files should be: a mailbox, a Maildir,
+    # another archive, a script
+    import io
+    inner = io.BytesIO()
+    with zipfile.ZipFile(inner, "w") as z:
+        z.writestr(zipfile.ZipInfo("deep.txt", date_time=(2001, 9, 1, 12, 0, 0)), "deep inside\n")
+    mz = os.path.join(root, "mixed.zip")
+    with zipfile.ZipFile(mz, "w") as z:
+        def add(name, data, mode=0o644):
+            zi = zipfile.ZipInfo(name, date_time=(2001, 9, 1, 12, 0, 0))
+            zi.create_system = 3
+            zi.external_attr = ((0o40755 << 16) | 0x10) if name.endswith("/") else ((0o100000 | mode) << 16)
+            z.writestr(zi, data)
+        add("inbox", world.mbox_bytes(2, "zipped"))
+        add("Mail/", b"")
+        add("Mail/new/", b"")
+        add("Mail/cur/", b"")
+        add("Mail/tmp/", b"")
+        add("Mail/cur/1000000001.M1P1.sim:2,S", b"From: z@example.org\nSubject: zipped maildir\n\nhi\n")
+        add("inner.zip", inner.getvalue())
+        add("run.sh", b"#!/bin/sh\necho from the archive\n", 0o755)
+    simfs.real_utime(mz, (sched.EPOCH - 5000, sched.EPOCH - 5000))
+    # a gophermap whose links try to climb out of the root
+    os.makedirs(os.path.join(root, "climbmap"))
+    simfs.write_file(os.path.join(root, "climbmap", "gophermap"),
+                     b"Links that leave the root\n0secret\t../../secret.txt\n1outside\t/../outside\n"
+                     b"0abs\t/../secret.txt\n0fine\tok.txt\n", sched.EPOCH - 5000)
+    simfs.write_file(os.path.join(root, "climbmap", "ok.txt"), b"ok\n", sched.EPOCH - 5000)
+    simfs.real_utime(os.path.join(root, "climbmap"), (sched.EPOCH - 5000, sched.EPOCH - 5000))
     simfs.real_utime(root, (sched.EPOCH - 5000, sched.EPOCH - 5000))
     return root
 
@@ -225,6 +259,12 @@ def _build_outside(S, variant):
                          sched.EPOCH - 99, mode=0o755)
         simfs.write_file(os.path.join(out, "run.sh"), ("#!/bin/sh\necho %s\n" % secret.strip()).encode(),
                          sched.EPOCH - 99, mode=0o755)
+        # what a cwd-relative path formed from an archive member name would find
+        for d in (out, S):
+            simfs.write_file(os.path.join(d, "inbox"), world.mbox_bytes(2, secret.strip()), sched.EPOCH - 99)
+            simfs.write_file(os.path.join(d, "secret.txt.abstract"), ("abstract " + secret).encode(), sched.EPOCH - 99)
+            with zipfile.ZipFile(os.path.join(d, "inner.zip"), "w") as z:
+                z.writestr(zipfile.ZipInfo("deep.txt", date_time=(2001, 9, 1, 12, 0, 0)), secret)
 
 
 def _clear_outside(S):
@@ -314,7 +354,8 @@ def _classify(path, S, root, allowed):
 
 def _serve_world(sc, S, root, cwd_name, tape):
     """Serve every request once in this world; returns (responses, logs, monitor violations, counters, run)."""
-    cwd = {"outside": os.path.join(S, "outside"), "root": root, "/": "/", "S": S}[cwd_name]
+    cwd = {"outside": os.path.join(S, "outside"), "root": root, "rootX": os.path.join(S, "rootX"),
+           "/": os.path.join(S, "outside"), "S": S}[cwd_name]
     here = os.path.dirname(os.path.dirname(os.path.abspath(__file__)))
     allowed = [sys.prefix, sys.base_prefix, harness.REPO, here, "/verif", "/usr/share/zoneinfo", "/dev/null",
                "/usr/lib", "/lib", "/bin/zcat", "/usr/bin/zcat", "/etc/localtime", "/proc/self"]
@@ -330,8 +371,8 @@ def _serve_world(sc, S, root, cwd_name, tape):
     old_cwd = os.getcwd()
     _install_hook()
     try:
-        os.chdir(cwd)
         with run:
+            os.chdir(cwd)      # (SimRun puts the process inside the scratch tree; choose the exact directory)
             run.fs.log_ops = True
             for rq in sc["requests"]:
                 data, tls, once = _wire(rq, S)
@@ -409,7 +450,9 @@ def execute(sc, tape=None):
             mine = [b for b in bada + badb if b[0] is rq]
             if mine:
                 b = mine[0]
-                viol = {"oracle": "seam-monitor", "signature": dict(sig, oracle="seam-monitor", call=b[1], why=b[3]),
+                viol = {"oracle": "seam-monitor",
+                        "signature": {"oracle": "seam-monitor", "call": b[1], "why": b[3], "base": sh["base"],
+                                      "token": bool(sh["token"])},
                         "detail": "request %r (%s, layers %d): %s on %r: %s" % (
                             rq["sel"], rq["proto"], rq["layers"], b[1], b[2], b[3])}
                 break
